@@ -194,7 +194,7 @@ def decodeFormat0 (raw : Nat) : Option (Int × Int) :=
   if mn ≥ 3 then none else some ((idx >>> 3 : Nat), (idx &&& 7 : Nat))
 
 /-- which module feeds bit 7 of the second copy: the pinned source ORs in the dark module -/
-def FORMAT2_READS_DARK_MODULE : Bool := true
+def FORMAT2_READS_DARK_MODULE : Bool := false
 
 /-- Go: `decodeFormat` -/
 def decodeFormat (img : Image) : Out (Int × Int) := do
